@@ -9,6 +9,16 @@ def grid(**kw):
 
 CHECKS = {}
 
+TX_IFACE = {"pkgpath": "github.com/ProtonMail/gluon/db", "iface": "Transaction"}
+
+# helper packages / files injected by overlay next to the harnessed package
+COMPONENTS = {
+    "verifdb": {"dir": "internal/verifdb", "pkgname": "verifdb", "files": ["db.go", "tx.go"], "vsym": True,
+                "gen_stubs": [dict(TX_IFACE, type="txBase")]},
+}
+
+TX_STUB = dict(TX_IFACE, type="verifTxBase")
+
 CHECKS["C16"] = {
     "explanation": "Bounded symbolic execution of gluon's message-set handling through its real go/ssa: (a) rfcparser.ParseNumber / command.ParseSeqSet on digit strings of up to 22 symbolic digits, (b) internal/state snapMsgList.{getMessagesInSeqRange,getMessagesInUIDRange,resolve*,seqRange,uidRange,binarySearchByUID,...} with every set number an arbitrary value the parser can produce and every UID of the view a strictly ascending symbolic 32-bit value.  Every assertion and run-time panic check is decided by an SMT solver (QF_BV) on every feasible path; counterexamples are replayed natively.",
     "harnesses": [
@@ -37,6 +47,10 @@ CHECKS["C17"] = {
     "harnesses": [
         {"name": "limits", "pkg": "limits", "pkgname": "limits", "entry": "VerifC17Limits", "files": ["zz_verif_c17.go"],
          "params": {"quick": [{}], "thorough": [{}]}, "cover": []},
+        {"name": "ops", "pkg": "internal/state", "pkgname": "state", "entry": "VerifC17Ops",
+         "files": ["zz_verif_c17.go", "zz_verif_fixture.go", "zz_verif_world.go"], "with": ["verifdb"], "gen_stubs": [TX_STUB],
+         "params": {"quick": grid(nA=[1, 2], nB=[0, 1]), "thorough": grid(nA=[0, 1, 2, 3], nB=[0, 1, 2])},
+         "cover": ["accepted", "refused-by-limit"]},
     ],
     "stubs": [],
     "outside": ["concurrent sessions racing between check and insert (serialised by the database write lock)"],
@@ -69,15 +83,15 @@ CHECKS["C11"] = {
     "explanation": "Symbolic execution of command.Parser.Parse and everything below it (rfcparser scanner/parser, all command builders) on an arbitrary symbolic byte string of bounded length after a fixed positioning prefix, followed by end of stream; the scanner's per-byte classification is merged into one ite term (local fork/join) so that paths correspond to distinctions the parser makes.",
     "harnesses": [
         {"name": "parse", "pkg": "imap/command", "pkgname": "command", "entry": "VerifC11Parse", "files": ["zz_verif_c11.go", "zz_verif_reader.go"],
-         "params": {"quick": grid(prefix=[0], n=[1, 2, 3]) + grid(prefix=[1, 2, 3, 4, 5, 6, 7, 8, 9, 10, 11, 12, 13, 15, 16, 17, 18], n=[1, 2, 3]), "thorough": grid(prefix=[0], n=[1, 2, 3, 4])},
-         "summarise": SCAN_SUMMARISE, "cover": []},
+         "params": {"quick": grid(prefix=[0], n=[1, 2, 3]) + grid(prefix=[1, 2, 3, 4, 5, 6, 7, 8, 9, 10, 11, 12, 13, 15, 16, 17, 18, 20, 21, 22, 23], n=[1, 2, 3]) + grid(prefix=[19], n=[4, 8, 12]),
+                    "thorough": grid(prefix=[0], n=[1, 2, 3, 4]) + grid(prefix=list(range(1, 14)) + list(range(15, 24)), n=[1, 2, 3, 4]) + grid(prefix=[19], n=[6, 10, 14])},
+         "summarise": SCAN_SUMMARISE, "cover": [], "alloc_limit": 31457280, "max_alloc": 32, "replay_mem_limit_kb": 4000000},
     ],
     "stubs": ["rfcparser.Reader -> fixed symbolic buffer then io.EOF, counting reads past the end"],
     "outside": ["inputs longer than the byte bound", "RSS / liveness of other sessions", "the 20-errors disconnect in Session.serve (goroutines)", "TLS sniffing"],
     "assumptions": [],
 }
 
-TX_STUB = {"pkgpath": "github.com/ProtonMail/gluon/db", "iface": "Transaction", "type": "verifTxBase"}
 
 CHECKS["C01"] = {
     "explanation": "Symbolic execution of the snapshot/responder/flush pipeline (State.PushResponder, popResponders, flushResponses, targetedExists/expunge/fetch.handle, ExistsStateUpdate.Apply, snapshot and snapMsgList mutation, FlagSet operations, response.Merge) on a directly constructed State: symbolic initial view (ascending UIDs, symbolic flag sets), symbolic history of queued adds/removals/flag changes and flushes with and without expunge permission; a client mirror is rebuilt only from the returned untagged responses and compared with the snapshot at every probe.",
